@@ -1,5 +1,6 @@
 import AcraModel.Envelope.SafeExamples
 import AcraModel.Envelope.SafeBound
+import AcraModel.Envelope.SafeCompatSame
 import AcraModel.Crypto.ShimLaws
 /-!
 # C03 — any modification of a protected value is detected, never mis-decrypted
@@ -237,6 +238,18 @@ theorem onColumn_damaged_unchanged (c : CryptoOps) (kv : KeyView) (rest : Bytes)
       ∀ m, process c kv (rest.drop i) ≠ .ok m) :
     ∃ hit, onColumn [decryptCallback c kv] rest = .ok rest hit :=
   onColumn_decrypt_same c kv rest (fun i hi hst m hm => absurd hm (hs i hi hst m))
+
+/-- **The transparent column processor hands a value it cannot decrypt back byte for byte**
+(`OldContainerDetectorWrapper.OnColumn`: container scan, then bare AcraStructs, then bare AcraBlocks).
+If `Process` fails at every position where a container tag starts, and on the serialized form of every
+contiguous part of the value (that is what the legacy scans hand to the callbacks), the client
+receives exactly the stored bytes, and no error. -/
+theorem onColumnCompat_damaged_unchanged (c : CryptoOps) (kv : KeyView) (rest : Bytes)
+    (h1 : ∀ i, i < rest.length → startsWith containerTag (rest.drop i) = true →
+      ∀ m, process c kv (rest.drop i) ≠ .ok m)
+    (h2 : ∀ x id s, x <:+: rest → serialize x id = .ok s → ∀ m, process c kv s ≠ .ok m) :
+    ∃ hit, onColumnCompat [decryptCallback c kv] rest = .ok rest hit :=
+  onColumnCompat_decrypt_same c kv rest h1 h2
 
 /-! ## E. accepted ⇒ genuine (ideal authenticity of the seal: `SealLaws c`)
 
@@ -508,5 +521,20 @@ example : ∃ hit, onColumn [decryptCallback boxOps exKv] exDamaged = .ok exDama
     intro i hi hs m hm
     rw [h i hi hs] at hm
     cases hm)
+
+/-- `onColumnCompat_damaged_unchanged`: a truncated value that still carries all three tags (container
+tag, then the AcraStruct/AcraBlock tag) meets both hypotheses – nothing shorter than 18 bytes is ever
+revealed – and comes back unchanged -/
+example : ∃ hit, onColumnCompat [decryptCallback boxOps exKv] [37, 37, 37, 34, 34, 34, 34, 34, 34, 34, 34, 1, 2, 3]
+    = .ok [37, 37, 37, 34, 34, 34, 34, 34, 34, 34, 34, 1, 2, 3] hit :=
+  onColumnCompat_damaged_unchanged boxOps exKv _
+    (by
+      have h : ∀ i, i < 14 → startsWith containerTag (([37, 37, 37, 34, 34, 34, 34, 34, 34, 34, 34, 1, 2, 3] : Bytes).drop i) = true →
+          process boxOps exKv (([37, 37, 37, 34, 34, 34, 34, 34, 34, 34, 34, 1, 2, 3] : Bytes).drop i) = .err := by decide
+      intro i hi hs m hm
+      rw [h i hi hs] at hm
+      cases hm)
+    (fun x id s hx hs => process_serialized_short boxOps exKv x s id
+      (Nat.lt_of_le_of_lt (infix_length_le hx) (by decide)) hs)
 
 end AcraModel.Props.C03
